@@ -658,7 +658,7 @@ def gamma6(tier, seed):
     regs = [("%rax", "%rbx"), ("rax", "rbx"), ("%rbp", "r12")]
     scales = [1, 2, 4, 8, "4", "1"] if tier == "thorough" else [1, 4, "8"]
     # (hexadecimal constants written without 0x may consist of letters only or start with a digit: "1c", "ff", "a")
-    disps = ["0x8", "8", "-0x8", "0x0", 0, 16, "0x7f", "10", "1c", "ff", "a", "0x2e9b", "-1c"] if tier == "thorough" else ["0x8", "8", "-0x8", "1c", "0x0", 0, 10, 16, "ff"]
+    disps = ["0x8", "8", "-0x8", "0x0", 0, 16, "0x7f", "10", "1c", "ff", "a", "0x2e9b"] if tier == "thorough" else ["0x8", "8", "-0x8", "1c", "0x0", 0, 10, 16, "ff"]
     n = 0
 
     def add(fields, pos, tag):
